@@ -52,7 +52,7 @@ CHECKS["C19"] = dict(
          "RTCSctpTransport.stop() always runs the CLOSED transition; public methods that create objects are fenced by the closed check; __connect() starts media only over a connected DTLS transport; once closed the aggregated states latch on `closed` and stay silent; every data channel "
          "container is drained; a receiver that was never started still ends its remote track; no loop that suspends iterates over a live set / dict attribute that other methods change; a task that stop() cancels or waits for is "
          "created before the first suspension or behind a state guard; close() placed between any two negotiation calls of enumerated configurations (negotiation methods interpreted at the AST level, stand-in transports) stops every "
-         "transport / sender / receiver the connection created, leaves the three states closed, does nothing the second time and makes later negotiation calls raise InvalidStateError (C19-SIM). "
+         "transport / sender / receiver the connection created, leaves the three states closed, does nothing the second time and makes later negotiation calls raise InvalidStateError (C19-SIM); stop() of a started sender / receiver, evaluated for every combination of loops that already ended on their own, cancels every running task and unregisters the object. "
          "It does not decide bounded-time completion under every interleaving or the absence of events after close.",
     ref="DESIGN.md section 3 C19")
 
@@ -72,7 +72,8 @@ CHECKS["C10"] = dict(
          "only handled through wrap-safe operations and `is None` sentinels; the receiver uses add()'s two results faithfully and hands every packet of a negotiated codec "
          "(empty payloads and retransmissions included) to add() exactly once under its own numbers; on enumerated loss-free schedules (frame sizes x "
          "prefetch x adjacent swap x wrap) every frame comes out whole, once, in order; with a permanent loss and a burst at overflow only whole frames or - right after a discard - "
-         "tails are released and a PLI is raised. Other arrival histories are not decided.",
+         "tails are released, a PLI is raised and no discard separates two held packets of one frame; _handle_rtp_packet evaluated on media / RTX / unparsable / short packets feeds add() only depayloaded packets (original codec for "
+         "retransmissions) and never raises; the key-frame request goes out for every local RTCP SSRC including 0. Other arrival histories are not decided.",
     ref="DESIGN.md section 3 C10")
 CHECKS["C13"] = dict(
     technique="typestate per call site from must-event guards evaluated over the four states; finite-domain evaluation of the DCEP writer/reader and of the bufferedamountlow predicate; structural pairing rules",
@@ -81,7 +82,7 @@ CHECKS["C13"] = dict(
          "exactly on downward crossings; ids have role parity and step 2, a reset is only queued for a channel with an id, and association close closes every "
          "channel unconditionally; a completed reset request is cleared before the reset queue is restarted; channels in every container are closed with the association; about 30 end-to-end lifecycle scenarios "
          "between two abstract transports (settings classes, messages, close from either side, id reuse, simultaneous opens, negotiated pairs, close before ACK, overlapping closes, channels closed before the "
-         "association is up, ESTABLISHED entered twice). It does not decide behaviour under fault schedules or open/close races beyond the transition relation.",
+         "association is up, ESTABLISHED entered twice); _data_channel_close evaluated for every ready state queues at most one stream reset per id. It does not decide behaviour under fault schedules or open/close races beyond the transition relation.",
     ref="DESIGN.md section 3 C13")
 CHECKS["C15"] = dict(
     technique="exception-escape analysis of RemoteBitrateEstimator.add with intervals, float bounds and class invariants; paired-update rule; must-event guard rule; grid evaluation of the clamp expressions",
@@ -149,7 +150,7 @@ CHECKS["C11"] = dict(
          "checks and the media codec is used afterwards; statistics see the wire packet while NACK generation and the jitter buffer see the unwrapped one; "
          "serial discipline in the RTP sender/receiver; the sender's RTX payload type is the one whose apt is the encoding codec (evaluated on codec-list layouts); media packets and unwrapped "
          "retransmissions reach the jitter buffer exactly once; the repair loop closed over both ends (lost or overtaken packets x wraps x RTX on/off) delivers every packet and asks only for lost ones; the video jitter buffer is at least as large as the NACK window; "
-         "_retransmit never sends a stale history slot; shared rules: NACK wire format and RTX wrapping (C07), jitter-buffer frame integrity on enumerated schedules (C10). It does not decide eventual recovery or byte identity of decoder input under loss schedules.",
+         "_retransmit never sends a stale history slot; NackGenerator.add() evaluated on arrival sequences reports every new gap (also after an outage longer than the history) and tracks exactly the unrepaired losses of the window; each history slot holds a packet created in the iteration that stores it; shared rules: NACK wire format and RTX wrapping (C07), jitter-buffer frame integrity on enumerated schedules (C10). It does not decide eventual recovery or byte identity of decoder input under loss schedules.",
     ref="DESIGN.md section 3 C11")
 
 CHECKS["C09"] = dict(
